@@ -50,6 +50,7 @@ var coreShapeFns = []shapeFn{
 	{"protocolV2", "NewClient"}, {"Channel", "doPause"}, {"Topic", "doPause"},
 	{"Channel", "popDeferredMessage"}, {"Channel", "pushDeferredMessage"},
 	{"Channel", "addToInFlightPQ"}, {"Channel", "addToDeferredPQ"},
+	{"clientV2", "Empty"}, {"Channel", "initPQ"},
 }
 
 func init() {
